@@ -20,7 +20,13 @@ from . import core, findings
 
 
 def load_prop(pid):
-    return importlib.import_module("vlib.props.%s" % pid.lower())
+    try:
+        return importlib.import_module("vlib.props.%s" % pid.lower())
+    except ModuleNotFoundError as e:
+        if "vlib.props" in str(e):
+            print("no check built for %s" % pid)
+            sys.exit(3)
+        raise
 
 
 def run_shard(pid, tier, seed, shard, nshards, out):
